@@ -96,6 +96,20 @@ def cases(thorough):
                 for a in ({}, {'minimal_nanotez_per_gas_unit': 250}, {'gas_limit': 20009 * n}):
                     out.append(dict(src=s, kinds=kinds, counter_class=CC[n % 5], amount_class=AC[(n + 1) % 5], const='default',
                                     mode='fill', args=a))
+    # F: contents of ONE kind (and one gas limit under fill) whose sizes differ by thousands of bytes, in every order: each content must pay for
+    #    its own bytes (a fee derived per kind / per gas limit instead of per content underpays the large one)
+    i = 0
+    for b in (['tx_implicit', 'tx_kt1_big'], ['tx_kt1_big', 'tx_implicit'], ['tx_kt1_params', 'tx_kt1_big'], ['tx_kt1_big', 'tx_kt1_params'],
+              ['tx_implicit', 'tx_implicit', 'tx_kt1_big'], ['tx_implicit', 'tx_kt1_big', 'tx_implicit'], ['tx_kt1_big'],
+              ['reveal', 'tx_implicit', 'tx_kt1_big'], ['tx_kt1_params', 'tx_kt1_big', 'tx_kt1_params', 'tx_kt1_big']):
+        for s in SRC:
+            for a in FILL_ARGS[:3]:
+                i += 1
+                out.append(dict(src=s, kinds=b, counter_class=CC[i % 5], amount_class=AC[i % 5], const='default', mode='fill', args=a))
+            for a in AUTO_ARGS[:2]:
+                i += 1
+                out.append(dict(src=s, kinds=b, counter_class=CC[i % 5], amount_class=AC[i % 5], const='default', mode='autofill', args=a,
+                                gas_i=i % 7, sto_i=(i // 7) % 4))
     return out
 
 
